@@ -26,6 +26,9 @@ pub fn get_bn(v: &Value) -> R<u64> {
     if b.len() > 8 {
         return Err("bignat too large".into());
     }
+    if b.first() == Some(&0) {
+        return Err("bignat with a leading zero byte is not a value of the specification".into());
+    }
     Ok(b.iter().fold(0u64, |a, x| (a << 8) | *x as u64))
 }
 pub fn get_opt<'a>(v: &'a Value) -> R<Option<&'a Value>> {
